@@ -140,6 +140,39 @@ func runC16(c *Collector, r *Rng, thorough bool) {
 				signVia("sign/stub/"+ci.name, rr, ss, false)
 			}
 		}
+		// (r, s) chosen by the length of their DER encoding: every split of the integer lengths for which
+		// the whole DER signature is 2n-1, 2n or 2n+1 bytes long (as long as the fixed-width form itself)
+		withLen := func(a int, top bool) *big.Int {
+			v := r.BigBelow(new(big.Int).Lsh(big.NewInt(1), uint(8*a)))
+			v.SetBit(v, 8*a-2, 1) // exactly a significant bytes
+			if top {
+				v.SetBit(v, 8*a-1, 1)
+			} else {
+				v.SetBit(v, 8*a-1, 0)
+			}
+			return v
+		}
+		for a := 1; a <= ci.n; a++ {
+			if !thorough && a%3 != r.Intn(3) && a > 4 && a < ci.n-4 {
+				continue
+			}
+			for _, ta := range []bool{false, true} {
+				rr := withLen(a, ta)
+				for _, target := range []int{2*ci.n - 1, 2 * ci.n, 2*ci.n + 1} {
+				search:
+					for b := 1; b <= ci.n; b++ {
+						for _, tb := range []bool{false, true} {
+							ss := withLen(b, tb)
+							if len(derRS(rr, ss)) == target {
+								signVia(fmt.Sprintf("sign/stub-der-length-%+d/%s", target-2*ci.n, ci.name), rr, ss, false)
+								signVia(fmt.Sprintf("sign/stub-der-length-%+d/%s", target-2*ci.n, ci.name), ss, rr, false)
+								break search
+							}
+						}
+					}
+				}
+			}
+		}
 		signVia("sign/stub-fails/"+ci.name, big.NewInt(1), big.NewInt(1), true)
 		// algorithm / curve combinations the library allows: the width follows the key's curve on both paths
 		for _, other := range curves {
